@@ -1153,9 +1153,7 @@ func checkDeath(c *checkCtx) {
 				if out.rep.HandshakeErr != "" {
 					c.count("handshakes that failed on the survivor", 1)
 				}
-				if cs.Idx%37 == 0 {
-					c.sample(map[string]interface{}{"case": cs, "survivor_report": out.rep})
-				}
+				c.sample(map[string]interface{}{"case": cs, "survivor_report": out.rep}) // the first few cases are kept (checkCtx caps the list)
 				if out.inconcl != "" {
 					c.inconclusiveCase(name, out.inconcl)
 				}
